@@ -19,7 +19,7 @@
              canonicaliser of the theorems `..._real` of Props/C08.v:
              -> ( ok x<real_canon d> <in_domain d> <wfb d> )   the value is good (Link.jgood)
               | ( outside )                                     it is not (a string that is not clean UTF-8,
-                                                                a float failing C07's float premise)
+                                                                a float failing C07's exact float premise, e.g. -0.0)
               | ( err <kind> )                                  the text is not one JSON value  *)
 From Coq Require Import ZArith List String Bool.
 From Verif Require Import Base.Wire Digest.Envelope Json.Json Json.C14n Digest.Content Digest.Link.
